@@ -1101,6 +1101,23 @@ def main(ck):
             except subprocess.TimeoutExpired:
                 res[side] = {"out": "", "exit": "timeout"}
         return f, res, None
+    # ---- two source files whose names map to the same generated Go identifier: must be a reported error (or two files)
+    if replay is None:
+        cdir = os.path.join(work, "collide")
+        os.makedirs(os.path.join(cdir, "src"))
+        for fn, txt in (("user_login.php", "under"), ("userLogin.php", "camel")):
+            open(os.path.join(cdir, "src", fn), "w").write("<?php\necho \"%s\\n\";\n" % txt)
+        pc = subprocess.run([origami, "compile", os.path.join(cdir, "src"), "-o", os.path.join(cdir, "out")], cwd=repo,
+                            stdout=subprocess.PIPE, stderr=subprocess.STDOUT, text=True, timeout=120)
+        gen = [f for f in os.listdir(os.path.join(cdir, "out")) if f.startswith("ast_")] if os.path.isdir(os.path.join(cdir, "out")) else []
+        evaluations += 1
+        reported = "same generated" in pc.stdout or "Error" in pc.stdout
+        if not reported and len(gen) < 2:
+            ck.violation("compile:name-collision", {"case": {"kind": "collision", "files": ["user_login.php", "userLogin.php"]},
+                                                    "impl_out": {"stdout": pc.stdout[-600:], "generated": gen},
+                                                    "clause": "two source files were translated into ONE generated file without an error: one program is silently dropped (and registered under the other's name)"})
+        ck.cov["name_collision_probe"] = "reported" if reported else "%d generated files" % len(gen)
+
     # ---- a real MULTI-FILE project: the entry includes / requires compiled siblings (the mechanism the property
     # names: RegisterCompiledFile, "run instead of parsing")
     MULTI = {
